@@ -10,6 +10,7 @@ PROFILES = [
     ("discrete-only", {"p_w": 0.0, "p_z": 0.0, "p_h": 1.0, "p_e": 0.5, "T": [2, 3, 4]}),
     ("period-varying-space", {"p_r": 1.0, "p_per_filter": 1.0, "T": [2, 3]}),
     ("stochastic", {"p_h": 1.0, "p_h_stoch": 1.0, "T": [2, 3]}),
+    ("stochastic, transition weights that do not sum to one (survival-weighted)", {"p_h": 1.0, "p_h_stoch": 1.0, "p_unnormalised": 1.0, "T": [2, 3]}),
     ("filtered-and-unfiltered-choice", {"p_r": 1.0, "p_b": 1.0}),
     ("several filters", {"p_r": 1.0, "p_choice_filter": 1.0, "p_state_filter": 0.5, "p_q": 0.4, "T": [2, 3]}),
     ("log-grid", {"p_log": 1.0, "p_w": 1.0, "p_z": 0.0}),
